@@ -386,7 +386,16 @@ def asan_tier(prop, jobs, work):
                 out.append(dict(kind=j['kind'], instance=j['inst']['name'], cfg=j['inst']['cfg'], op={'op': 'asan-crash'}, crash_signal=-r['rc'],
                                 asan=r['tail'], record={'ret': 'harness crashed under the AddressSanitizer build'}))
             else:
-                raise ToolError('ASan harness run failed (rc=%s): %s' % (r['rc'], r['tail'][-600:]))
+                # the harness itself panicked (exit 101): run it again with panic messages on to say where
+                import subprocess
+                msg = ''
+                try:
+                    p2 = subprocess.run(r.get('cmd', []), stdout=subprocess.PIPE, stderr=subprocess.PIPE, text=True, timeout=1800,
+                                        env=dict(os.environ, CVH_PANIC_MSG='1', ASAN_OPTIONS='detect_leaks=0:abort_on_error=0:halt_on_error=1'))
+                    msg = '\n'.join([l for l in p2.stderr.splitlines() if l.startswith('PANIC-MSG')][-3:])
+                except Exception as e:
+                    msg = str(e)
+                raise ToolError('ASan harness run failed (rc=%s) on %s: %s %s' % (r['rc'], j['inst']['name'], r['tail'][-600:], msg))
         if r['stats']:
             tests += r['stats'].get('tests', 0)
     log('[%s] ASan tier: %d tests on the AddressSanitizer build, %d memory errors' % (prop, tests, len(out)))
